@@ -58,7 +58,12 @@ def exportCh (s : Store) (c : Cut) : Option ChanRec :=
     let rows := rowsUpTo s c.ch c.hw
     some ⟨c.ch, c.ep, c.st, c.hw, s.filter (sysKeep c.ch c.hw), rows.length, rows⟩
 
-def exportAll (s : Store) (cuts : List Cut) : Option (List ChanRec) := cuts.mapM (exportCh s)
+def exportAll (s : Store) : List Cut → Option (List ChanRec)
+  | [] => some []
+  | c :: cs =>
+    match exportCh s c, exportAll s cs with
+    | some r, some rs => some (r :: rs)
+    | _, _ => none
 
 def rowRec : Val → Option Rec
   | .row id f c fl p => some ⟨id, f, c, fl, p⟩
